@@ -3127,6 +3127,15 @@ def run_c11(ctx):
         cases, stats = rc, {}
     else:
         cases, stats = c11_cases(ctx.rng, 25 if ctx.tier == "quick" else 400, 6 if ctx.tier == "quick" else 40)
+        # a read failing inside an included file, then config_clear (which frees the file names and leaves the error fields
+        # alone), then more reads: the settings' names and the next error's name are owned again
+        pre = ["init", "fs put %s %s" % (hx(b"b.cfg"), hx(b"y = 2;\nw = = 4;\n")),
+               "fs put %s %s" % (hx(b"a.cfg"), hx(b"x = 1;\n@include \"b.cfg\"\n")), "fs put %s %s" % (hx(b"ok.cfg"), hx(b"k = 1;\n"))]
+        for tail in (["readf %s" % hx(b"a.cfg"), "dump", "clear", "dump", "reads %s" % hx(b"z = 1;"), "dump"],
+                     ["reads %s" % hx(b"@include \"a.cfg\"\n"), "dump", "clear", "dump", "readf %s" % hx(b"a.cfg"), "dump", "clear",
+                      "readf %s" % hx(b"ok.cfg"), "dump"],
+                     ["readf %s" % hx(b"a.cfg"), "clear", "clear", "dump", "readf %s" % hx(b"nosuch.cfg"), "dump"]):
+            cases.append("\n".join(pre + tail + ["destroy"]) + "\n")
     res.rule = ("generated include forests (a generated text cut at line boundaries into a tree of files, depth <= 4) read "
                 "through config_read_file / config_read_string / config_read(stream); for each forest each fault kind "
                 "(file deleted, replaced by a directory, syntax error / duplicate / mismatched element at a random line) "
